@@ -648,6 +648,14 @@ def cast_value(v, src_fam, to):
     if v is None or v is TAINT:
         return v
     tf = target_family(to)
+    if isinstance(v, tuple) and len(v) == 2 and v[0] in ("floatstr", "dtstr"):
+        # the text of a float / datetime (its exact spelling is backend dependent): parsing it back as the same kind is
+        # defined, everything else is not
+        if v[0] == "floatstr" and tf == "float":
+            return cast_value(v[1], "float", to)
+        if tf == "str":
+            return v
+        return TAINT
     if tf == "int":
         if src_fam == "float":
             if math.isnan(v) or math.isinf(v):
